@@ -37,8 +37,28 @@ def build_corpus(chk, tier, corpus_file, exhaustive_len=None, sizes=None):
 
 
 # ---------------------------------------------------------------- classifiers of known-finding preconditions
+def _same_name_resolves(data):
+    """D14 precondition read off the reference VM's own resolves (exact also when STACK_GLOBAL takes its
+    strings from the memo)"""
+    try:
+        _, _, w, _ = vmlib.vm_trace(data)
+    except Exception:
+        return False
+    seen = {}
+    for ev in w.events:
+        if ev[0] != "resolve" or not isinstance(ev[1], str) or not isinstance(ev[2], str):
+            continue
+        m = "builtins" if ev[1] in vmlib.BUILTINS_MODULES else ev[1]
+        if ev[2] in seen and seen[ev[2]] != m:
+            return True
+        seen[ev[2]] = m
+    return False
+
+
 def same_name_globals(data):
     """D14: two globals with the same attribute name from different modules"""
+    if _same_name_resolves(data):
+        return True
     try:
         ops = vmlib.abstract_ops(data)
     except Exception:
@@ -65,9 +85,23 @@ def same_name_globals(data):
 
 
 def _reach_nodes(stmt, acc, depth=0):
-    for node in ast.walk(stmt):
+    # not ast.walk: fickling builds ast.Tuple with a *tuple* of elts (TUPLE1/2/3), which
+    # ast.iter_child_nodes does not descend into, so a list captured through a tuple was missed
+    todo, seen = [stmt], set()
+    while todo:
+        node = todo.pop()
+        if id(node) in seen:
+            continue
+        seen.add(id(node))
         if isinstance(node, (ast.List, ast.Set, ast.Dict)):
             acc[id(node)] = node
+        if isinstance(node, ast.AST):
+            for name in node._fields:
+                v = getattr(node, name, None)
+                if isinstance(v, ast.AST):
+                    todo.append(v)
+                elif isinstance(v, (list, tuple)):
+                    todo.extend(x for x in v if isinstance(x, ast.AST))
 
 
 def _size(node):
